@@ -508,7 +508,7 @@ def record(text):
 
 
 def c04_quirk(cbs):
-    """True when <x/> follows an unclosed void <x> (C04's subject: the tree shape is then not compared here)."""
+    """True when <x/> follows an unclosed void <x> (was C04's defect, repaired in the library: no longer used to skip the comparison)."""
     void = set(CFG["void"])
     closed = []
     for cb in cbs:
@@ -615,7 +615,7 @@ def hostile_case(ctx, markup, kw, cmds, pending, tag=None):
             impl = ("raise", "uninspectable")
     else:
         impl = ("raise", exc_class(err))
-    pending.append((case, impl, wkinds, not c04_quirk(cbs)))
+    pending.append((case, impl, wkinds, True))
 
 
 def flush_model(ctx, cmds, pending):
